@@ -55,6 +55,7 @@ use dsi_progress_logger::no_logging;
 use epserde::deser::{DeserType, Deserialize, Flags};
 use epserde::ser::Serialize;
 use std::io::Cursor;
+use common_traits::{AsBytes, AtomicUnsignedInt, IntoAtomic};
 use std::ops::Index;
 use std::path::{Path, PathBuf};
 use sux::dict::{RearCodedList, RearCodedListBuilder};
@@ -484,7 +485,10 @@ fn q_bitvec<B: AsRef<[usize]>>(x: &BitVec<B>, a: &mut A) {
     });
 }
 
-fn q_bfv<W: Word + std::fmt::Debug, B: AsRef<[W]>>(x: &BitFieldVec<W, B>, a: &mut A) {
+fn q_bfv<W: Word + IntoAtomic + std::fmt::Debug + TryFrom<u64>, B: AsRef<[W]>>(x: &BitFieldVec<W, B>, a: &mut A)
+where
+    W::AtomicType: AtomicUnsignedInt + AsBytes,
+{
     let len = BitFieldSliceCore::<W>::len(x);
     q(a, "len", || len);
     q(a, "bit_width", || x.bit_width());
@@ -499,6 +503,37 @@ fn q_bfv<W: Word + std::fmt::Debug, B: AsRef<[W]>>(x: &BitFieldVec<W, B>, a: &mu
         q_fold(a, "iter_from", || x.iter_from(p).collect());
     }
     q_fold(a, "words", || x.as_slice().to_vec());
+    // the atomic view of the borrowed contents (the `From` glue of `BitFieldVec<W, &[W]>`, which is
+    // what an eps-copy / mmap-loaded vector is), read atomically, and converted back
+    q_fold(a, "atomic_view", || {
+        let view: BitFieldVec<W, &[W]> = unsafe { BitFieldVec::from_raw_parts(x.as_slice(), x.bit_width(), len) };
+        let av: AtomicBitFieldVec<W, &[<W as IntoAtomic>::AtomicType]> = view.into();
+        let mut out: Vec<W> = vec![];
+        let n = AtomicBitFieldSliceLen::alen(&av);
+        for i in 0..n {
+            out.push(av.get_atomic(i, std::sync::atomic::Ordering::Relaxed));
+        }
+        let bw = AtomicBitFieldSliceLen::abw(&av);
+        let back: BitFieldVec<W, &[W]> = av.into();
+        out.extend(back.iter());
+        out.push(W::try_from(n as u64 & 0xff).ok().unwrap_or(W::ZERO));
+        out.push(W::try_from(bw as u64 & 0xff).ok().unwrap_or(W::ZERO));
+        out
+    });
+}
+
+/// `len`/`bit_width` of an atomic bit-field vector (disambiguation helper)
+trait AtomicBitFieldSliceLen {
+    fn alen(&self) -> usize;
+    fn abw(&self) -> usize;
+}
+impl<W: Word + IntoAtomic, B: AsRef<[W::AtomicType]>> AtomicBitFieldSliceLen for AtomicBitFieldVec<W, B> {
+    fn alen(&self) -> usize {
+        self.len()
+    }
+    fn abw(&self) -> usize {
+        self.bit_width()
+    }
 }
 
 // ------------------------------------------------------------------------------------ types
